@@ -72,7 +72,7 @@ PROPS = {
     ),
     "C07": dict(
         modules=["GeomVerif.Properties.C07"],
-        n_quick=8000, n_thorough=150000, thorough_seeds=4, min_theorems=10,
+        n_quick=8000, n_thorough=150000, thorough_seeds=4, min_theorems=15,
         rule="ops geom / feat / fc: geometries of all 7 types (nesting <= 2, parts empty with P about 1/5, empty collections with or without a fixed layout) in XY, XYZ, "
              "XYM, XYZM, Layout(5), Layout(6) with finite ordinates from the decimal stress pool; Features with ids {'', digits, float text, escapes/unicode, long}, bbox "
              "{none, 4 numbers, 6 numbers}, geometry or null, properties {null, {}, nested maps with strings needing escapes, floats, bools, nulls, arrays}; "
@@ -87,7 +87,7 @@ PROPS = {
                                   "case folding, duplicate keys, numbers out of range) are modelled in Model/GeoJson.lean and validated by the correspondence",
                                   "strconv.ParseFloat / FormatFloat trusted (references in Spec/ParseFloat.lean compared on every number / numeric id)",
                                   "duplicate `bbox` / `features` keys (slice reuse in encoding/json) are not generated"],
-        assumptions=["finite ordinates", "geojson.DefaultLayout left at XY"],
+        assumptions=["finite ordinates", "geojson.DefaultLayout is XY, or set by the caller to XYZ or XYZM for the length of one call (ops geomdl / decdl: the model takes the value as its parameter dl)"],
     ),
     "C08": dict(
         modules=["GeomVerif.Properties.C08", "GeomVerif.Properties.C08Order"],
